@@ -20,12 +20,12 @@ use std::rc::Rc;
 pub static DEF: CheckDef = CheckDef {
     id: "C18",
     level: "fault_enumeration",
-    technique: "deterministic storage simulation of the key store: seeded histories against a password/seed model; every crash point of the atomic file replace reached by the history (plus torn temporary files) is reopened; single-byte corruption of the store file at every (thorough) or 24 drawn (quick) positions",
+    technique: "deterministic storage simulation of the key store: seeded histories against a password/seed model; every crash point of the atomic file replace reached by the history (plus torn temporary files) is reopened; I/O errors injected into the file replace with the same manager used afterwards; single-byte corruption of the store file at every (thorough) or 24 drawn (quick) positions",
     runs: (400, 4000),
     generate,
     execute,
     shrink,
-    rule: "each run = history of 3..15 operations from {store seed (1..3 seed ids), retrieve with current / previous / random password, change password, clear cache, reopen, store/change with a wrong password} after initialisation; all crash points of encrypt_and_store reached by the history are captured and every image is opened with the passwords of the version it must equal; then every byte (thorough) / 24 drawn bytes (quick) of the final file is flipped (2 patterns) and the store reopened; non-trivial = at least one wrong-password retrieval after a successful store in the same process and one crash image checked; distinct = distinct hash of the operation/verdict log",
+    rule: "each run = history of 3..15 operations from {store seed (1..3 seed ids), retrieve with current / previous / random password or the password of a failed change, change password, clear cache, reopen, store/change with a wrong password; one store in five and one change in three with an I/O error injected at one of the three fallible steps of the file replace} after initialisation; all crash points of encrypt_and_store reached by the history are captured and every image is opened with the passwords of the version it must equal; then every byte (thorough) / 24 drawn bytes (quick) of the final file is flipped (2 patterns) and the store reopened; non-trivial = at least one wrong-password retrieval after a successful store in the same process and one crash image checked; distinct = distinct hash of the operation/verdict log",
     real_components: &["EncryptedKeyStorageManager (initialize, store_master_seed, retrieve_master_seed, change_password, clear_cache, encrypt_and_store, load_and_decrypt)", "Argon2id (SecurityLevel::Fast) and ChaCha20-Poly1305 as shipped", "real file in a scratch directory"],
     stubbed_components: &[],
     assumptions: &["salts, nonces and seeds handed to the store come from the scenario; salts/nonces generated inside the store use OS randomness (opaque)", "process-death semantics for the file replace"],
@@ -38,11 +38,11 @@ fn generate(seed: u64, tier: Tier) -> Value {
     for _ in 0..n {
         let k = r.below(100);
         let op = if k < 25 {
-            json!({"op": "store", "id": r.below(3), "seed": r.below(1 << 40)})
+            json!({"op": "store", "id": r.below(3), "seed": r.below(1 << 40), "fail": if r.chance(1, 5) { json!(r.below(3)) } else { Value::Null }})
         } else if k < 60 {
-            json!({"op": "retrieve", "id": r.below(3), "pw": *r.pick(&["current", "current", "previous", "random", "random"])})
+            json!({"op": "retrieve", "id": r.below(3), "pw": *r.pick(&["current", "current", "previous", "random", "random", "failed_change"])})
         } else if k < 72 {
-            json!({"op": "change"})
+            json!({"op": "change", "fail": if r.chance(1, 3) { json!(r.below(3)) } else { Value::Null }})
         } else if k < 80 {
             json!({"op": "clear_cache"})
         } else if k < 88 {
@@ -52,7 +52,9 @@ fn generate(seed: u64, tier: Tier) -> Value {
         } else {
             json!({"op": "change_wrong_pw"})
         };
+        let follow = op["op"] == "change" && !op["fail"].is_null() && r.chance(2, 3);
         ops.push(op);
+        if follow { ops.push(json!({"op": "retrieve", "id": r.below(3), "pw": "failed_change"})); }
     }
     json!({"property": "C18", "seed": seed, "ops": ops,
            "corrupt_positions": if tier == Tier::Quick { 24 } else { 0 }})
@@ -92,7 +94,7 @@ fn execute(sc: &Value) -> RunReport {
     let dir = scratch.path.join("ks");
     std::fs::create_dir_all(&dir).expect("dir");
     let path = dir.join("keys.enc");
-    let cap: CaptureRef = Rc::new(RefCell::new(Capture { dir: dir.clone(), max_images: 64, ..Default::default() }));
+    let cap: CaptureRef = Rc::new(RefCell::new(Capture { dir: dir.clone(), max_images: 64, injectable: ["keystore.before_tmp", "keystore.tmp_created", "keystore.tmp_written"].iter().map(|s| s.to_string()).collect(), ..Default::default() }));
     simstore::install(&cap);
     let rt = sim_runtime(seed);
     let mut ctx = Ctx::new();
@@ -102,6 +104,7 @@ fn execute(sc: &Value) -> RunReport {
         let mut cur_pw = 0u64;
         let mut next_pw = 1u64;
         let mut prev_pws: Vec<u64> = Vec::new();
+        let mut failed_pws: Vec<u64> = Vec::new(); // new passwords of change_password calls that failed
         let mut seeds: BTreeMap<String, Vec<u8>> = BTreeMap::new();
         let mut versions: Vec<Version> = Vec::new(); // every file version that existed at an acknowledgement
         let mut stored_in_this_process = false;
@@ -155,8 +158,10 @@ fn execute(sc: &Value) -> RunReport {
                     let p = if wrong { pw(900 + idx as u64) } else { pw(cur_pw) };
                     cap.borrow_mut().images.clear();
                     cap.borrow_mut().enabled = true;
+                    { let mut c = cap.borrow_mut(); c.injected = None; c.fail_at = if wrong { None } else { op["fail"].as_u64().map(|k| c.callbacks + k) }; }
                     let r = mgr.store_master_seed(&id, &ms, &p).await;
                     cap.borrow_mut().enabled = false;
+                    let injected = { let mut c = cap.borrow_mut(); c.fail_at = None; c.injected.take() };
                     ev!("#{idx} {kind} {id} -> {}", if r.is_ok() { "ok" } else { "err" });
                     let images = cap.borrow().images.clone();
                     if wrong {
@@ -170,6 +175,16 @@ fn execute(sc: &Value) -> RunReport {
                         }
                     } else {
                         match r {
+                            Ok(()) if injected.is_some() => {
+                                ctx.violate("C18.ioerr.failure_reported_as_success", "store", format!("op #{idx}: the file update failed at {} and store_master_seed returned Ok", injected.clone().unwrap_or_default()));
+                            }
+                            Err(_) if injected.is_some() => {
+                                ctx.fault("io_error_injected");
+                                let now = std::fs::read(&path).unwrap_or_default();
+                                if versions.last().map(|v| v.file != now).unwrap_or(false) {
+                                    ctx.violate("C18.ioerr.failed_update_changed_file", "store", format!("op #{idx}: store failed at {} yet the store file changed", injected.clone().unwrap_or_default()));
+                                }
+                            }
                             Ok(()) => {
                                 seeds.insert(id.clone(), ms.seed_material().to_vec());
                                 stored_in_this_process = true;
@@ -188,6 +203,7 @@ fn execute(sc: &Value) -> RunReport {
                     let (p, is_current) = match which {
                         "current" => (pw(cur_pw), true),
                         "previous" if !prev_pws.is_empty() => (pw(*rng.pick(&prev_pws)), false),
+                        "failed_change" if !failed_pws.is_empty() => { ctx.probe("retrieve_with_password_of_failed_change"); (pw(*rng.pick(&failed_pws)), false) }
                         _ => (pw(500 + idx as u64), false),
                     };
                     let r = mgr.retrieve_master_seed(&id, &p).await;
@@ -223,11 +239,26 @@ fn execute(sc: &Value) -> RunReport {
                     let newn = next_pw;
                     cap.borrow_mut().images.clear();
                     cap.borrow_mut().enabled = true;
+                    { let mut c = cap.borrow_mut(); c.injected = None; c.fail_at = if wrong { None } else { op["fail"].as_u64().map(|k| c.callbacks + k) }; }
                     let r = mgr.change_password(&old, &pw(newn)).await;
                     cap.borrow_mut().enabled = false;
+                    let injected = { let mut c = cap.borrow_mut(); c.fail_at = None; c.injected.take() };
                     ev!("#{idx} {kind} -> {}", if r.is_ok() { "ok" } else { "err" });
                     let images = cap.borrow().images.clone();
                     match (r, wrong) {
+                        (Ok(()), false) if injected.is_some() => {
+                            ctx.violate("C18.ioerr.failure_reported_as_success", "change_password", format!("op #{idx}: the file update failed at {} and change_password returned Ok", injected.clone().unwrap_or_default()));
+                        }
+                        (Err(_), false) if injected.is_some() => {
+                            // the old file stays: the old password remains the current one, the new one never took effect
+                            ctx.fault("io_error_injected");
+                            failed_pws.push(newn);
+                            next_pw += 1;
+                            let now = std::fs::read(&path).unwrap_or_default();
+                            if versions.last().map(|v| v.file != now).unwrap_or(false) {
+                                ctx.violate("C18.ioerr.failed_update_changed_file", "change_password", format!("op #{idx}: change_password failed at {} yet the store file changed", injected.clone().unwrap_or_default()));
+                            }
+                        }
                         (Ok(()), false) => {
                             prev_pws.push(cur_pw);
                             cur_pw = newn;
@@ -319,7 +350,7 @@ fn execute(sc: &Value) -> RunReport {
     });
     drop(rt);
     simstore::uninstall();
-    for k in ["crash_images", "crash_images_opened", "wrong_password_after_store_same_process", "password_changed", "reopen", "corruption_rejected", "corruption_harmless_byte"] {
+    for k in ["retrieve_with_password_of_failed_change", "crash_images", "crash_images_opened", "wrong_password_after_store_same_process", "password_changed", "reopen", "corruption_rejected", "corruption_harmless_byte"] {
         ctx.probes.entry(k.to_string()).or_insert(0);
     }
     let reached = cap.borrow().reached.clone();
